@@ -482,13 +482,28 @@ def camp_stale(ctx):
         ctx.evaluated()
         ctx.count('stale:kind=' + case['kind'])
         stale_case(ctx, case)
+    # anchors: every kind of declared string is altered at least once per run, in a model chosen by seed and shard
+    # (kinds such as v_iter and diag_eps exist in a handful of models only, a uniform draw rarely reaches them); the
+    # combination v_iter on a variable that also declares v_str is always included when the kind is v_iter
+    kinds = [k for k in ALTER_KINDS]
+    kind = kinds[(ctx.shard + ctx.seed) % len(kinds)]
+    pool = sorted(m for m in names if cands[m][kind])
+    if pool:
+        m = pool[(ctx.seed * 7 + ctx.shard // len(kinds)) % len(pool)]
+        tg = sorted(cands[m][kind])
+        both = [t for t in tg if kind == 'v_iter' and ss.models[m].cache.all_vars[t].v_str is not None]
+        target = (both or tg)[(ctx.seed + ctx.shard) % len(both or tg)]
+        case = dict(model=m, kind=kind, target=target, autogen=True)
+        ctx.current_case = case
+        ctx.count('stale:anchor:' + kind)
+        body(case)
     drive(ctx, stale_cases(names, cands), body, 3 if ctx.tier == 'quick' else 40, name='stale', shrink=False)
 
 
 CAMPAIGNS = {
     'equations': dict(fn=camp_equations, shards=dict(quick=16, thorough=16)),
     'regen': dict(fn=camp_regen, shards=dict(quick=2, thorough=16)),
-    'stale': dict(fn=camp_stale, shards=dict(quick=8, thorough=16)),
+    'stale': dict(fn=camp_stale, shards=dict(quick=10, thorough=20)),
 }
 
 
